@@ -591,10 +591,10 @@ theorem perfect_needs_distinguishable_counterexample :
 
 /-! ## user instances inside a prediction frame (F-C16d) -/
 
-/-- HEAD's `match_instances` for a prediction frame `[user Instance (far away), exact copy (score 0.9)]`:
+/-- **Regression record** (F-C16d, fixed by e83a3ca).  `match_instances` before the fix, for a prediction frame `[user Instance (far away), exact copy (score 0.9)]`:
 `scores_pr` has one entry, `argsort` yields index 0, and index 0 of the *unfiltered* list is the user
-instance — the exact copy is never looked at: no pair, the gt is a false negative.  The repaired
-version ignores the user instance and pairs the copy at OKS 1. -/
+instance — the exact copy was never looked at: no pair, the gt a false negative.  HEAD ignores the
+user instance and pairs the copy at OKS 1. -/
 theorem mixed_prediction_frame_counterexample :
     let oks : Nat → Nat → Option Rat := fun _ p => if p = 7 then some 0 else some 1
     let score : Nat → Option Rat := fun p => if p = 7 then none else some (9/10)
